@@ -781,7 +781,29 @@ func (fc *funcConverter) convertBlock(astFunc *AstFunc, ssaBlock *ssa.BasicBlock
 			if instr.IsString {
 				idxName := fc.tupleVarName(instr.Iter, 0)
 				iterValName := fc.tupleVarName(instr.Iter, 1)
+				nextIdxName := fc.getVarName(instr) + "_next"
+				const offName, runeName = "off", "r"
 
+				// Ranging over a string yields byte offsets and decodes UTF-8,
+				// where invalid bytes are one rune each. Let a range statement
+				// over the rest of the string decode the rune at the current offset;
+				// its second iteration, if any, tells where the next rune begins.
+				//
+				//	ok = idx < len(str)
+				//	if ok {
+				//		key = idx
+				//		next := len(str)
+				//		for off, r := range str[idx:] {
+				//			if off == 0 {
+				//				val = r
+				//				continue
+				//			}
+				//			next = idx + off
+				//			break
+				//		}
+				//		idx = next
+				//	}
+				restExpr := &ast.SliceExpr{X: ast.NewIdent(iterValName), Low: ast.NewIdent(idxName)}
 				stmt = ah.BlockStmt(
 					ah.AssignStmt(ast.NewIdent(okName), &ast.BinaryExpr{
 						X:  ast.NewIdent(idxName),
@@ -791,12 +813,26 @@ func (fc *funcConverter) convertBlock(astFunc *AstFunc, ssaBlock *ssa.BasicBlock
 					&ast.IfStmt{
 						Cond: ast.NewIdent(okName),
 						Body: ah.BlockStmt(
-							&ast.AssignStmt{
-								Lhs: []ast.Expr{ast.NewIdent(keyName), ast.NewIdent(valName)},
-								Tok: token.ASSIGN,
-								Rhs: []ast.Expr{ast.NewIdent(idxName), ah.IndexExprByExpr(ast.NewIdent(iterValName), ast.NewIdent(idxName))},
+							ah.AssignStmt(ast.NewIdent(keyName), ast.NewIdent(idxName)),
+							ah.AssignDefineStmt(ast.NewIdent(nextIdxName), ah.CallExprByName("len", ast.NewIdent(iterValName))),
+							&ast.RangeStmt{
+								Key:   ast.NewIdent(offName),
+								Value: ast.NewIdent(runeName),
+								Tok:   token.DEFINE,
+								X:     restExpr,
+								Body: ah.BlockStmt(
+									&ast.IfStmt{
+										Cond: &ast.BinaryExpr{X: ast.NewIdent(offName), Op: token.EQL, Y: ah.IntLit(0)},
+										Body: ah.BlockStmt(
+											ah.AssignStmt(ast.NewIdent(valName), ast.NewIdent(runeName)),
+											&ast.BranchStmt{Tok: token.CONTINUE},
+										),
+									},
+									ah.AssignStmt(ast.NewIdent(nextIdxName), &ast.BinaryExpr{X: ast.NewIdent(idxName), Op: token.ADD, Y: ast.NewIdent(offName)}),
+									&ast.BranchStmt{Tok: token.BREAK},
+								),
 							},
-							&ast.IncDecStmt{X: ast.NewIdent(idxName), Tok: token.INC},
+							ah.AssignStmt(ast.NewIdent(idxName), ast.NewIdent(nextIdxName)),
 						),
 					},
 				)
@@ -833,15 +869,16 @@ func (fc *funcConverter) convertBlock(astFunc *AstFunc, ssaBlock *ssa.BasicBlock
 				idxName := fc.tupleVarName(instr, 0)
 				valName := fc.tupleVarName(instr, 1)
 
+				// The iterator is the string itself, possibly of a named type, plus a byte offset into it.
 				astFunc.Vars[idxName] = types.Typ[types.Int]
-				astFunc.Vars[valName] = types.NewSlice(types.Typ[types.Rune])
+				astFunc.Vars[valName] = types.Typ[types.String]
 
 				stmt = &ast.AssignStmt{
 					Lhs: []ast.Expr{ast.NewIdent(idxName), ast.NewIdent(valName)},
 					Tok: token.ASSIGN,
 					Rhs: []ast.Expr{
 						ah.IntLit(0),
-						ah.CallExpr(&ast.ArrayType{Elt: ast.NewIdent("rune")}, xExpr),
+						ah.CallExprByName("string", xExpr),
 					},
 				}
 			} else {
